@@ -169,14 +169,19 @@ def c16_history(s: str, sel: int, order: int) -> str:
     text s (which may fail); order 1: the roles are swapped (s is judged before/after POOL[sel])."""
     fixed = POOL[sel]
     a, b = (fixed, s) if order == 0 else (s, fixed)
+
+    def run(text, entry=0):
+        # the pool text is concrete: processing it is executed natively; the symbolic text is traced
+        return concretely(_outcome, text, entry) if text is fixed else _outcome(text, entry)
+
     try:
-        before = _outcome(a)
+        before = run(a)
         try:
-            _outcome(b)
+            run(b)
         except Exception:
             pass
-        after = _outcome(a)
-        again = _outcome(a, 1), _outcome(a, 1)
+        after = run(a)
+        again = run(a, 1), run(a, 1)
     except Exception as ex:
         return f"{exc(ex)} escaped for {a!r}"
     if before != after:
